@@ -77,3 +77,19 @@ Definition well_locked (p : list sk) : bool :=
   | Some None | Some (Some false) => true
   | _ => false
   end.
+
+(* all recorded operations of a given kind, in order *)
+
+Fixpoint sk_ops (s : sk) (kind : string) {struct s} : list string :=
+  match s with
+  | SPrim (POp k w) => if String.eqb k kind then [w] else []
+  | SPrim _ => []
+  | SIf a b =>
+      (fix go (p : list sk) : list string := match p with [] => [] | x :: r => sk_ops x kind ++ go r end) a ++
+      (fix go (p : list sk) : list string := match p with [] => [] | x :: r => sk_ops x kind ++ go r end) b
+  | SLoop body =>
+      (fix go (p : list sk) : list string := match p with [] => [] | x :: r => sk_ops x kind ++ go r end) body
+  | SReturn => []
+  end.
+
+Definition ops_of (p : list sk) (kind : string) : list string := flat_map (fun s => sk_ops s kind) p.
